@@ -665,4 +665,7 @@ pub(crate) mod verif_local {
     pub(crate) fn generated_file(text: &str, config: &Config) -> bool {
         is_generated_file(text, config)
     }
+
+    /// The private module `newline_style`, for `verif_hooks::newline`.
+    pub(crate) use super::newline_style::verif_local as newline_style_local;
 }
